@@ -256,6 +256,27 @@ func roundtripPlan(sig, tier string) []Unit {
 		b := big
 		units = append(units, Unit{Opts: def, Mon: mon, Tag: "after-refusal", History: []Letter{alpha[2], {Sig: sig, Big: &b}, alpha[2], alpha[5]}})
 	}
+	// one key, a different value type under each parent
+	{
+		ml := mixLetters(sig, 1)
+		for i, l := range ml {
+			units = append(units, Unit{Opts: def, Mon: mon, Tag: "typemix", History: []Letter{l, ml[(i+5)%len(ml)]}})
+		}
+	}
+	// a long stream of large batches on one default consumer: the Arrow memory it
+	// obtained over the stream is several times its 70 MiB limit, so memory that is
+	// not given back after a batch ends in the refusal of a valid batch
+	{
+		var h []Letter
+		for _, l := range rampLetters(sig, 30000) {
+			if l.Ramp.Uses == 1 && len(h) < 120 {
+				for i := 0; i < 60; i++ {
+					h = append(h, l)
+				}
+			}
+		}
+		units = append(units, Unit{Opts: def, Mon: mon, Tag: "long-large", History: fixRamps(h)})
+	}
 	// u8 dictionaries: every column crosses 255 within a few ramps
 	u8 := def
 	u8.Dict = "u8"
@@ -376,6 +397,32 @@ func allAttrsHistories(sig string, n int) [][]Letter {
 	return out
 }
 
+// initConfigs: every With*InitDictIndex option crossed with the limits it could disturb, in both orders.
+func initConfigs() []Options {
+	var out []Options
+	for _, d := range []string{"none", "u8", ""} {
+		for _, in := range []string{"u8", "u16", "u32", "u64"} {
+			for _, after := range []bool{false, true} {
+				o := DefaultOptions()
+				o.Dict, o.Init, o.InitAfter = d, in, after
+				out = append(out, o)
+			}
+		}
+	}
+	return out
+}
+
+// mixLetters: one attribute key whose value type changes from parent to parent, every rotation, every level.
+func mixLetters(sig string, rotStep int) []Letter {
+	var out []Letter
+	for _, lv := range []string{"item", "resource", "scope", "sub"} {
+		for r := 0; r < NumMixValues; r += rotStep {
+			out = append(out, Letter{Sig: sig, Mix: &Mix{Level: lv, Rot: r}})
+		}
+	}
+	return out
+}
+
 func dictConfigs() []Options {
 	var out []Options
 	for _, d := range []string{"none", "u8", "u16", "u32", "u64"} {
@@ -464,6 +511,22 @@ func optionsPlan(tier string) []Unit {
 			}
 		}
 	}
+	// every attribute ordering over the type-mix letters (the sorters compare values of different types)
+	for _, sig := range sigs() {
+		ml := mixLetters(sig, 1)
+		for a16 := 0; a16 < 4; a16++ {
+			for a32 := 0; a32 < 5; a32++ {
+				if a16 != 0 && a32 != 0 && a16 != a32 {
+					continue // vary one ordering at a time, plus the diagonal
+				}
+				o := DefaultOptions()
+				o.Attrs16, o.Attrs32 = a16, a32
+				for i, l := range ml {
+					units = append(units, Unit{Opts: o, Mon: mon, Tag: "typemix-" + sig, History: []Letter{l, ml[(i+3)%len(ml)]}})
+				}
+			}
+		}
+	}
 	// (ii) dictionary regimes: ramps crossing 255 (u8), all signals
 	for _, sig := range sigs() {
 		depth := 4
@@ -491,6 +554,18 @@ func optionsPlan(tier string) []Unit {
 					units = append(units, Unit{Opts: o, Mon: mon, Tag: "allattrs-" + sig, History: h})
 				}
 			}
+		}
+		for _, o := range initConfigs() {
+			for _, l := range rampLetters(sig, 300)[:2] {
+				units = append(units, Unit{Opts: o, Mon: mon, Tag: "init-" + sig, History: fixRamps([]Letter{l, l})})
+			}
+		}
+		// limits above 16 bits: a column crossing 65,535 widens its index to 32 bits in mid-stream
+		for _, d := range []string{"u32", "u64"} {
+			o := DefaultOptions()
+			o.Dict = d
+			l := rampLetters(sig, 30000)[0]
+			units = append(units, Unit{Opts: o, Mon: mon, Tag: "widen32-" + sig, History: fixRamps([]Letter{l, l, l, l})})
 		}
 		if thorough {
 			// cross 65,535 with the default (u16) limit in both regimes
@@ -672,6 +747,15 @@ func dictPlan(tier string) []Unit {
 				}
 			}
 		}
+		// the initial-index-width options, before and after the limit option: the bound does not depend on them
+		for _, o := range initConfigs() {
+			for _, l := range rampLetters(sig, 300) {
+				if l.Ramp.Uses != 1 {
+					continue
+				}
+				units = append(units, Unit{Opts: o, Mon: mon, Tag: "init-" + sig, History: fixRamps([]Letter{l, l, l})})
+			}
+		}
 		// long streams of unbounded-cardinality columns
 		long := 60
 		if thorough {
@@ -686,6 +770,13 @@ func dictPlan(tier string) []Unit {
 				}
 				units = append(units, Unit{Opts: o, Mon: mon, Tag: "long-" + sig, History: fixRamps(h)})
 			}
+		}
+		// limits above 16 bits: the index widens to 32 bits in mid-stream
+		for _, d := range []string{"u32", "u64"} {
+			o := DefaultOptions()
+			o.Dict = d
+			l := rampLetters(sig, 30000)[0]
+			units = append(units, Unit{Opts: o, Mon: mon, Tag: "widen32-" + sig, History: fixRamps([]Letter{l, l, l, l})})
 		}
 		// the implicit default limit (no limit option at all): one column takes
 		// 180,000 distinct values, crossing 65,535 again after the index has been
